@@ -3,6 +3,8 @@
 Correspondence streams (model = coq/Model/Maxvol.v evaluated by vm_compute):
   qc_maxvol    Qc instance + executable LU initialisation (lu_exec) on small integer matrices, n = r+1 .. 3r,
                duplicate and zero rows, every iteration limit 0 .. needed+2; index vector exact, B to 1e-9
+  qc_maxvol_reentry  maxvol on sequences that need >= 3 swaps and in which a row of the LU-initial submatrix is swapped
+               out and later re-enters (family A = P L with |L| close to 1 below the diagonal, and integer matrices)
   qc_exact_tie the same on matrices whose whole run is exact in binary64 (every divisor a power of two, every
                intermediate a short dyadic, e dyadic): argmax ties and threshold ties included, B compared exactly
   qc_rect      maxvol_rect, all 0 <= dr_min <= dr_max (and None), zero-residual forced growth included
@@ -255,7 +257,7 @@ def _finv(M):
     return [row[r:] for row in M]
 
 
-def _sim_loop(B, I, e, k, exact, e_exact):
+def _sim_loop(B, I, e, k, exact, e_exact, trace=None):
     """maxvol iteration on Fractions (exact is tracked) or floats (exact=None: the float model mirrors the
     implementation bit for bit, every decision is safe).  Returns I, B, swaps, converged, safe, exact"""
     n, r = len(B), len(B[0])
@@ -277,6 +279,8 @@ def _sim_loop(B, I, e, k, exact, e_exact):
         if m <= e:
             conv = True
             break
+        if trace is not None:
+            trace.append((i, j))
         I[j] = i
         p = B[i][j]
         if exact is not None:
@@ -441,6 +445,18 @@ def _gen_lu_exact(rng, r, n, kind):
     return _gen_int(rng, r, n, kind, POOL_P2)
 
 
+def _gen_L(rng, r, n, pool):
+    """A = P L with L unit lower trapezoidal whose sub-diagonal entries have magnitude close to 1: partial pivoting starts
+    from a poor submatrix (B0 = L inv(L[:r]) grows), the iteration needs several swaps and rows of the initial
+    submatrix that were swapped out regain dominance and re-enter"""
+    L = [[(Fr(1) if i == j else (rng.choice(pool) * rng.choice([1, -1]) if j < i else Fr(0))) for j in range(r)]
+         for i in range(n)]
+    rng.shuffle(L)
+    return L
+
+
+POOL_L8 = [Fr(5, 8), Fr(3, 4), Fr(7, 8), Fr(1), Fr(1), Fr(15, 16)]
+POOL_LDY = [Fr(1), Fr(1), Fr(1, 2), Fr(3, 4)]
 POOL_INT = [Fr(x) for x in range(-5, 6)]
 POOL_P2 = [Fr(x) for x in (0, 0, 1, -1, 1, -1, 2, -2, 4, -4)] + [Fr(1, 2), Fr(-1, 2)]
 
@@ -610,6 +626,57 @@ def correspondence(R, ctx):
         dist['converged' if conv else 'limit_hit'] += 1
     dist['r_n'] = sorted(dist['r_n'])
     b, s = _run_stream(R, 'qc_maxvol', items, 'q', dist, chunk=10)
+    bad_all += b
+
+    # ---- qc_maxvol_reentry: >= 3 swaps, a row of the initial submatrix is swapped out and re-enters -------------
+    items, dist = [], dict(candidates=0, accepted=0, exact_runs=0, swaps={}, reentries={}, r_n=set(), limit_hit=0,
+                           converged=0, families={})
+    tries = 0
+    while len(items) < 40 * mult and tries < 40000 * mult:
+        tries += 1
+        r = rng.randint(3, 5 if th else 4)
+        n = rng.randint(r + 2, 3 * r)
+        fam = rng.choice(['L8', 'L8', 'Ldy', 'int'])
+        A = (_gen_L(rng, r, n, POOL_L8) if fam == 'L8' else _gen_L(rng, r, n, POOL_LDY) if fam == 'Ldy'
+             else _gen_int(rng, r, n, 'generic', [Fr(x) for x in range(-9, 10)]))
+        e = rng.choice(E_DY[:4] if fam == 'Ldy' else E_ANY[:4])
+        dist['candidates'] += 1
+        try:
+            I0, B0, tf, ex = _sim_lu(A)
+        except Singular:
+            continue
+        tr = []
+        _, _, need, _, safe, ex2 = _sim_loop(B0, I0, e, 1000, bool(ex), fam == 'Ldy', trace=tr)
+        ini = set(I0)
+        reent = [t for t, (i, j) in enumerate(tr) if i in ini]
+        if need < 3 or not reent:
+            continue
+        exact = bool(ex and ex2)
+        if not exact and not (tf and safe):
+            continue
+        # iteration limit: beyond the last re-entry in two cases out of three, else anywhere
+        k = rng.choice([need, need + 2, 100]) if len(items) % 3 else rng.randint(reent[0] + 1, need + 1)
+        with Recorder() as rec:
+            impl = _impl(tn.maxvol, _fA(A), float(e), k)
+        if not rec.calls:
+            continue
+        rI0, rB0 = rec.calls[0]
+        if exact and (rI0 != I0 or any(Fr(float(rB0[a, j])) != B0[a][j] for a in range(n) for j in range(r))):
+            exact = False
+            if not (tf and safe):
+                continue
+        contract = _validate_init(_fA(A), rI0, rB0, 1e3)
+        items.append(dict(coq=[f'showRQ (maxvol OQc QX {_qmat(A)} {_qe(e)} {k})'], impl=impl, contract=contract, exact=exact,
+                          input=dict(f='maxvol', A=_jin(A), e=str(e), k=k, reentry=True)))
+        dist['accepted'] += 1
+        dist['exact_runs'] += int(exact)
+        dist['families'][fam] = dist['families'].get(fam, 0) + 1
+        dist['swaps'][need] = dist['swaps'].get(need, 0) + 1
+        dist['reentries'][len(reent)] = dist['reentries'].get(len(reent), 0) + 1
+        dist['converged' if k >= need else 'limit_hit'] += 1
+        dist['r_n'].add((r, n))
+    dist['r_n'] = sorted(dist['r_n'])
+    b, s = _run_stream(R, 'qc_maxvol_reentry', items, 'q', dist, chunk=6)
     bad_all += b
 
     # ---- qc_exact_tie ------------------------------------------------------------------------------
@@ -1191,6 +1258,53 @@ def search(R, ctx, deep, hints):
             else:
                 run(dict(f='_maxvol', A=_js(A), tau=e, dr_min=rng.randint(0, 5), dr_max=rng.randint(0, 6), tau0=e0, k0=k0,
                          cond_log10=lc))
+    # 2b. the clause "max|B| <= e when the iteration limit is not hit" on MANY small matrices: n = r+1 .. 3r (some 4r),
+    #     r = 2 .. 5 (some up to 8), e in {1.0, 1.01, 1.05, 1.1}, k large.  Families in which the LU start is poor, pivots
+    #     cycle and swapped-out rows regain dominance: P L with |L| ~ 1 below the diagonal, near-tie magnitudes, rows that
+    #     are perturbations / rescalings of each other, nearly rank-one, permuted triangular, small integers.
+    def small(fam, r, n):
+        if fam == 'L':
+            lo = rng.choice([0.0, 0.7, 0.9])
+            L = np.zeros((n, r))
+            for i in range(n):
+                for j in range(min(i, r)):
+                    L[i, j] = rng.choice([-1.0, 1.0]) * rng.uniform(lo, 1.0)
+                if i < r:
+                    L[i, i] = 1.0
+            if rng.random() < 0.3:
+                L = L @ (np.eye(r) + np.triu(nprng.normal(size=(r, r)), 1))
+            return L[nprng.permutation(n)]
+        if fam == 'near':
+            return nprng.choice([-1.0, 1.0], size=(n, r)) * nprng.uniform(0.8, 1.25, size=(n, r))
+        if fam == 'pm01':
+            return nprng.choice([-1.0, 0.0, 1.0], size=(n, r)) + 0.2 * nprng.normal(size=(n, r))
+        if fam == 'perturb':
+            base = nprng.normal(size=(rng.randint(1, r), r))
+            A = base[nprng.integers(0, base.shape[0], size=n)] * (1 + 0.2 * nprng.normal(size=(n, 1)))
+            return A + 10.0 ** rng.randint(-3, -1) * nprng.normal(size=(n, r))
+        if fam == 'rank1ish':
+            return nprng.normal(size=(n, 1)) @ nprng.normal(size=(1, r)) + 10.0 ** rng.randint(-3, -1) * nprng.normal(size=(n, r))
+        if fam == 'tri':
+            A = np.tril(nprng.normal(size=(n, r))) + 0.1 * nprng.normal(size=(n, r))
+            return A[nprng.permutation(n)]
+        if fam == 'int':
+            return nprng.integers(-9, 10, size=(n, r)).astype(float)
+        if fam == 'rescaled':      # rows rescaled so that rows dropped early regain dominance after later swaps
+            return nprng.normal(size=(n, r)) * np.exp(0.7 * nprng.normal(size=(n, 1))) * np.exp(0.7 * nprng.normal(size=(1, r)))
+        return nprng.normal(size=(n, r))
+    fams = ['L', 'L', 'L', 'L', 'near', 'pm01', 'perturb', 'rank1ish', 'tri', 'int', 'rescaled', 'gauss']
+    n_small, n_rank = (60000 if deep else 8000), 0
+    for t in range(n_small):
+        fam = fams[t % len(fams)]
+        r = rng.randint(2, 5) if t % 4 else rng.randint(5, 8)
+        n = rng.randint(r + 1, 3 * r) if t % 5 else rng.randint(r + 1, 4 * r)
+        A = small(fam, r, n)
+        if np.linalg.matrix_rank(A) < r or np.linalg.cond(A) > 1e6:
+            n_rank += 1
+            continue
+        run(dict(f='maxvol', A=_js(A), e=rng.choice([1.0, 1.01, 1.05, 1.1]), k=100000, fam=fam), cond=max(1e3, np.linalg.cond(A)))
+        if len(fails) >= 12:
+            break
     # 3. rejection clauses and the trivial dispatch
     for t in range(60):
         r = rng.randint(1, 5)
@@ -1204,7 +1318,9 @@ def search(R, ctx, deep, hints):
         for dr_min, dr_max in [(-1, None), (2, 1), (n - r + 1, None), (0, -1), (n - r + 1, n - r + 5)]:
             run(dict(f='maxvol_rect', A=_js(A), e=1.1, dr_min=dr_min, dr_max=dr_max, e0=1.05, k0=3))
     R.search.append(dict(name='numpy oracle of every clause of C08 (distinct valid rows, A = B A[I], B[I] = Id, '
-                              'max|B| <= e / row norms <= e unless the limit was hit, row-count bounds, ValueError)',
+                              'max|B| <= e / row norms <= e unless the limit was hit, row-count bounds, ValueError); '
+                              'incl. %d small matrices (r = 2..8, n = r+1..4r, e in {1.0,1.01,1.05,1.1}, k = 1e5) from '
+                              'pivot-cycling families for the max|B| <= e clause' % n_small,
                          evaluations=n_eval, failures=len(fails), deep=deep))
     return fails
 
